@@ -14,7 +14,7 @@ from ..rules.leftrec import B, Q
 LEVEL = 'other'
 TECHNIQUE = ('static translation validation of the GENERATOR: dispatch simulation over the class table (handler exhaustiveness), '
              'primitive correspondence between Model._parse traces and the code each walk_* method emits (both interpreted on '
-             'stand-in nodes) through the context-manager wrappers, rule-flag/parameter transfer, taint of model strings to the '
+             'stand-in nodes) through the context-manager wrappers, rule-flag/parameter transfer, context-free-emission rule (no branch on generator state mutated during the walk), leaf operands read back from the emitted call, taint of model strings to the '
              'emitter through enumerated sanitizers whose escape tables must cover the printer\'s hazard characters')
 LEVEL_TEXT = ('Decides from the source, for every node class at once: the parser generator has a handler for every node class a '
               'grammar can contain and every class has its own _parse; for each node class the runtime primitive the model '
